@@ -64,6 +64,14 @@ pub trait CaseEngine: Sync {
     fn max_stuck_cases(&self) -> u64 {
         12
     }
+    /// per-file size limit for the workers (bytes); `None` = unlimited
+    fn file_size_limit(&self) -> Option<u64> {
+        None
+    }
+    /// after this many worker deaths (aborts) the run gives up
+    fn max_worker_deaths(&self) -> u64 {
+        96
+    }
     /// CPU seconds (not wall-clock: load independent) a case may burn without emitting a progress line before it
     /// is killed as spinning; engines emit a progress line per operation, and an operation takes milliseconds
     fn hang_cpu_seconds(&self) -> f64 {
@@ -188,11 +196,21 @@ fn gdb_frames(pid: u32) -> Vec<String> {
     v
 }
 
-fn spawn(args: &Args, shard: usize, of: usize, from: usize, tx: &mpsc::Sender<Msg>, scratch: &str, generation: usize) -> Child {
+fn spawn(args: &Args, shard: usize, of: usize, from: usize, tx: &mpsc::Sender<Msg>, scratch: &str, generation: usize, fsize_limit: Option<u64>) -> Child {
     let exe = std::env::current_exe().expect("current_exe");
     let stderr_path = format!("{scratch}/worker{shard}.{generation}.stderr");
     let errf = std::fs::File::create(&stderr_path).expect("stderr file");
-    let mut cmd = Command::new(exe);
+    // optional per-file size limit (RLIMIT_FSIZE through the shell; SIGXFSZ ignored so that the write / truncate
+    // fails with EFBIG instead of killing the worker): damaged inputs can make the code under test grow files to
+    // terabytes and then copy them around, which would fill the sandbox's disk
+    let mut cmd = match fsize_limit {
+        Some(bytes) => {
+            let mut c = Command::new("sh");
+            c.arg("-c").arg(format!("trap '' XFSZ; ulimit -f {}; exec \"$0\" \"$@\"", bytes / 512)).arg(exe);
+            c
+        }
+        None => Command::new(exe),
+    };
     for p in &args.pos {
         cmd.arg(p);
     }
@@ -294,7 +312,7 @@ pub fn parent_main(engine: &dyn CaseEngine, args: &Args) -> Report {
     );
     let (tx, rx) = mpsc::channel();
     let mut children: Vec<Child> = (0..workers)
-        .map(|i| spawn(args, i, workers, 0, &tx, &scratch, 0))
+        .map(|i| spawn(args, i, workers, 0, &tx, &scratch, 0, engine.file_size_limit()))
         .collect();
     let mut rep = Report::new(engine.property(), &engine.rule());
     let timeout = Duration::from_secs(engine.case_timeout_s(args));
@@ -302,7 +320,7 @@ pub fn parent_main(engine: &dyn CaseEngine, args: &Args) -> Report {
     let mut watchdog_kills = 0u64;
     let max_watchdog_kills = args.u64("max-stuck", engine.max_stuck_cases());
     let mut deaths = 0u64;
-    let max_deaths = args.u64("max-deaths", 96);
+    let max_deaths = args.u64("max-deaths", engine.max_worker_deaths());
     let mut last_check = Instant::now();
     let mut drained = false;
     while live > 0 {
@@ -445,7 +463,9 @@ pub fn parent_main(engine: &dyn CaseEngine, args: &Args) -> Report {
                 match case {
                     Some(cn) if children[i].generation < 200 && !give_up => {
                         let generation = children[i].generation + 1;
-                        children[i] = spawn(args, i, workers, cn + 1, &tx, &scratch, generation);
+                        children[i] = spawn(args, i, workers, cn + 1, &tx, &scratch, generation, engine.file_size_limit());
+                        // what the dead worker left behind in its case directory is not needed any more
+                        let _ = std::fs::remove_dir_all(format!("{}/c{cn}", args.str("scratch", "/nonexistent")));
                     }
                     _ => {
                         if case.is_none() {
